@@ -44,6 +44,11 @@ type CacheSeed struct {
 
 type StoreCase struct {
 	Age      int         `json:"age"` // expiry age in seconds, 0 = none
+	AgeMs    int         `json:"age_ms,omitempty"`    // ... plus this many milliseconds (an age need not be a whole number of seconds)
+	FracMs   int         `json:"frac_ms,omitempty"`   // the clock reads this many milliseconds past the whole second
+	// the store runs its own poller (never ticked; polls are explicit Refresh calls), so that Close
+	// flushes the cache; histories may then make single cache writes fail (op "failwrite")
+	Poller bool `json:"poller,omitempty"`
 	Declared []string    `json:"declared"`
 	Seeds    []CacheSeed `json:"seeds"` // undeclared entries of the start-up cache
 	Ops      []SOp       `json:"ops"`
@@ -113,14 +118,25 @@ func (r *storeRun) viol(clause, format string, args ...any) *h.Violation {
 
 func (r *storeRun) mayExpire(m *mname) bool {
 	now := r.clock.Unix()
-	return !m.declared && r.c.Age > 0 && now-m.last > int64(r.c.Age) && !m.handle
+	return !m.declared && r.c.Age > 0 && (now-m.last)*1000+int64(r.c.FracMs) > int64(r.c.Age)*1000+int64(r.c.AgeMs) && !m.handle
+}
+
+func (r *storeRun) expiryAge() time.Duration {
+	if r.c.Age <= 0 {
+		return 0
+	}
+	return time.Duration(r.c.Age)*time.Second + time.Duration(r.c.AgeMs)*time.Millisecond
 }
 
 func (r *storeRun) start(declared []string) *h.Violation {
-	st, err := setec.NewStore(context.Background(), setec.StoreConfig{
+	cfg := setec.StoreConfig{
 		Client: r.svc, Secrets: append([]string{}, declared...), AllowLookup: true, Cache: r.cache,
-		PollInterval: -1, ExpiryAge: time.Duration(r.c.Age) * time.Second, TimeNow: r.clock.Now, Logf: nolog,
-	})
+		PollInterval: -1, ExpiryAge: r.expiryAge(), TimeNow: r.clock.Now, Logf: nolog,
+	}
+	if r.c.Poller {
+		cfg.PollInterval, cfg.PollTicker = 0, newChanTicker()
+	}
+	st, err := setec.NewStore(context.Background(), cfg)
 	if err != nil {
 		return h.V("harness", "NewStore: %v", err)
 	}
@@ -209,6 +225,7 @@ func (r *storeRun) run() *h.Violation {
 	c := r.c
 	r.svc = fake.NewSvc()
 	r.clock = fake.NewClock(clockStart)
+	r.clock.SetFrac(c.FracMs)
 	r.nver = map[string]uint32{}
 	for _, n := range allStoreNames {
 		r.svc.Set(n, 1, histValue(n, 1))
@@ -275,8 +292,15 @@ func (r *storeRun) run() *h.Violation {
 				r.handles[o.Name] = hd
 				m.handle = true
 			}
+		case "failwrite":
+			// the next write to the cache device fails (once)
+			if r.c.Poller {
+				r.cache.FailWrite[r.cache.NumWriteCalls()+1] = true
+				r.info.Class("a-cache-write-fails")
+			}
 		case "lookup":
 			w0 := r.cache.NumWrites()
+			wc0 := r.cache.NumWriteCalls()
 			hd, err := r.st.LookupSecret(context.Background(), o.Name)
 			if err != nil || hd == nil {
 				return h.V("harness", "step %d lookup %q: %v", i, o.Name, err)
@@ -285,7 +309,7 @@ func (r *storeRun) run() *h.Violation {
 				v, _, _ := r.svc.Active(o.Name)
 				r.model[o.Name] = &mname{last: r.clock.Unix(), ver: v}
 				r.info.Class("lookup-new")
-				if r.cache.NumWrites() == w0 {
+				if r.cache.NumWriteCalls() == wc0 && r.prop == "C19" { // (C11 goes on: its own clause is judged at the next successful poll)
 					if v := r.viol("last-access-persisted", "step %d: lookup of new secret %q did not rewrite the cache", i, o.Name); v != nil {
 						return v
 					}
@@ -403,7 +427,7 @@ func (r *storeRun) run() *h.Violation {
 			l0, w0 := r.svc.LogLen(), r.cache.NumWrites()
 			// classification before the poll
 			for n, m := range r.model {
-				if !m.declared && r.c.Age > 0 && r.clock.Unix()-m.last > int64(r.c.Age) {
+				if !m.declared && r.c.Age > 0 && (r.clock.Unix()-m.last)*1000+int64(r.c.FracMs) > int64(r.c.Age)*1000+int64(r.c.AgeMs) {
 					if m.handle {
 						r.info.Class("poll-covers-stale-but-pinned")
 					}
@@ -477,13 +501,54 @@ func (r *storeRun) run() *h.Violation {
 						}
 					}
 				}
+				// "... and the cache holds the same": also when this poll had nothing to write, the
+				// document that IS in the cache lists every known secret at its current version
+				if doc, err := model.DecodeCacheStrict(r.cache.Data()); err == nil {
+					for n, m := range r.model {
+						if r.mayExpire(m) {
+							continue
+						}
+						if e, ok := doc[n]; !ok || e.Version != m.ver {
+							if v := r.viol("cache-agrees-after-poll", "step %d: the poll succeeded (nothing to install), but the cache document does not hold %q at version %d (present=%v, version %d): %s", i, n, m.ver, ok, e.Version, r.cache.Data()); v != nil {
+								return v
+							}
+						}
+					}
+				}
 				continue
 			}
 			if v := r.docCheck(i, what, true, window); v != nil {
 				return v
 			}
 		case "restart":
+			closeFlushFails := r.c.Poller && r.cache.FailWrite[r.cache.NumWriteCalls()+1]
+			wn0 := r.cache.NumWrites()
 			r.st.Close()
+			if r.c.Poller && !closeFlushFails {
+				// The poller has stopped and the cache device was fine: whatever was read before is on
+				// record for the next process (the model keeps its own stamps; a cache that was not
+				// brought up to date shows at the next poll of the next process).
+				if r.cache.NumWrites() > wn0 {
+					if v := r.docCheck(i, what+" (close)", false, nil); v != nil {
+						return v
+					}
+				}
+				decl := r.declared
+				if o.Redeclare != nil {
+					decl = o.Redeclare
+				}
+				w0 := r.cache.NumWrites()
+				if v := r.start(decl); v != nil {
+					return v
+				}
+				r.info.Class("restart")
+				if r.cache.NumWrites() > w0 {
+					if v := r.docCheck(i, what, false, nil); v != nil {
+						return v
+					}
+				}
+				continue
+			}
 			data := r.cache.Data()
 			if len(data) > 0 {
 				doc, err := model.DecodeCacheStrict(data)
@@ -522,6 +587,10 @@ func (r *storeRun) run() *h.Violation {
 
 func genStoreCase(rt *rapid.T, prop string) StoreCase {
 	c := StoreCase{Age: rapid.SampledFrom([]int{0, 10, 10, 100}).Draw(rt, "age")}
+	if rapid.Bool().Draw(rt, "fractional") {
+		c.AgeMs = rapid.SampledFrom([]int{400, 500, 900}).Draw(rt, "agems")
+		c.FracMs = rapid.SampledFrom([]int{0, 300, 450, 700, 950}).Draw(rt, "fracms")
+	}
 	c.Declared = rapid.SampledFrom([][]string{{"d1"}, {"d1", "d2"}, {"d1", "d2", "d1"}}).Draw(rt, "declared")
 	if rapid.IntRange(0, 1).Draw(rt, "seeded") == 0 {
 		n := rapid.IntRange(1, 2).Draw(rt, "nseeds")
@@ -535,6 +604,9 @@ func genStoreCase(rt *rapid.T, prop string) StoreCase {
 	kinds := []string{"read", "read", "handle", "lookup", "lookup", "watch", "poll", "poll", "poll", "advance", "advance", "restart", "set", "set"}
 	if prop == "C19" {
 		kinds = []string{"read", "read", "handle", "lookup", "lookup", "lookup", "watch", "poll", "poll", "poll", "advance", "advance", "advance", "restart", "set"}
+		if c.Poller = rapid.Bool().Draw(rt, "poller"); c.Poller {
+			kinds = append(kinds, "restart", "failwrite")
+		}
 		if c.Age == 0 && rapid.Bool().Draw(rt, "age-on") {
 			c.Age = 10
 		}
@@ -611,7 +683,7 @@ func runStoreCase(prop string) func(t *testing.T, c StoreCase) (*h.Violation, h.
 
 var c11 = &h.Campaign[StoreCase]{
 	Prop: "C11", Sub: "history",
-	Rule: "rapid: store histories (1-30 events: read a handle, obtain a handle/watcher, lookup, service activates a new or an OLDER version, clock advance clustered around the expiry age, Refresh - optionally with per-request failures or a service change after its n-th request -, restart from the written cache with the same or another declared set) against a scripted service with injected clock and recording cache, expiry age in {0,10,100}s, start-up caches with undeclared entries stamped 0/past/future; after a Refresh that returned nil every known, non-expirable secret must be at a version that was active during that poll (judged from the cache document the poll wrote, or from the absence of a write), after a failed one nothing may have moved; non-trivial = a successful poll in a history that also has an activation backwards, an injected failure, a change during a poll, or a stale-but-pinned undeclared secret; distinct by history",
+	Rule: "rapid: store histories (1-30 events: read a handle, obtain a handle/watcher, lookup, service activates a new or an OLDER version, clock advance clustered around the expiry age, Refresh - optionally with per-request failures or a service change after its n-th request -, restart from the written cache with the same or another declared set) against a scripted service with injected clock and recording cache, expiry age in {0,10,100}s (+ 0/400/500/900 ms, with a clock that reads 0-950 ms past the whole second), start-up caches with undeclared entries stamped 0/past/future; after a Refresh that returned nil every known, non-expirable secret must be at a version that was active during that poll (judged from the cache document the poll wrote, or from the absence of a write), after a failed one nothing may have moved; non-trivial = a successful poll in a history that also has an activation backwards, an injected failure, a change during a poll, or a stale-but-pinned undeclared secret; distinct by history",
 	Quick: 10000, Thorough: 2000000,
 	Gen:   func(rt *rapid.T) StoreCase { return genStoreCase(rt, "C11") },
 	Run:   runStoreCase("C11"),
@@ -619,7 +691,7 @@ var c11 = &h.Campaign[StoreCase]{
 
 var c19 = &h.Campaign[StoreCase]{
 	Prop: "C19", Sub: "history",
-	Rule: "rapid: the same store histories as C11 (polls may carry per-request failures: plain error, not-found or access-denied), judged by the expiry rules: a name may vanish from the cache document only at a poll and only if undeclared AND an age is set AND now-lastAccess > age AND no handle/watcher was handed out by this process; every document must carry the model's last-access stamps (reads refresh them; they survive restart because the model is reloaded from the last document actually written); non-trivial = a history in which an expiration happened and some secret was read/pinned; distinct by history",
+	Rule: "rapid: the same store histories as C11 (polls may carry per-request failures: plain error, not-found or access-denied), judged by the expiry rules: a name may vanish from the cache document only at a poll and only if undeclared AND an age is set AND now-lastAccess > age AND no handle/watcher was handed out by this process; every document must carry the model's last-access stamps (reads refresh them; without a poller they survive restart as far as the last document actually written says; in half of the histories the store runs a poller, Close then flushes, single cache writes may be made to fail, and the next process is held to the TRUE stamps unless the shutdown flush itself was the write that failed); non-trivial = a history in which an expiration happened and some secret was read/pinned; distinct by history",
 	Quick: 10000, Thorough: 2000000,
 	Gen:   func(rt *rapid.T) StoreCase { return genStoreCase(rt, "C19") },
 	Run:   runStoreCase("C19"),
